@@ -24,7 +24,8 @@ def _hist_worker(args):
         for r in recs:
             if r.get("obs"):
                 out.append({"rid": r["rid"], "what": f"{kitname} after {r['op']['name']}", "gamma": r["gamma"],
-                            "post": r["post"], "postanom": r["postanom"], "obs": r["obs"],
+                            "post": r["post"], "postanom": [a for a in r["postanom"] if not a.startswith("view:")],
+                            "viewanom": [a for a in r["postanom"] if a.startswith("view:")], "obs": r["obs"],
                             "replay": {"cls": kitname, "gamma": r["gamma"], "j": r["post"]}})
     return out
 
@@ -40,7 +41,8 @@ def _shape_worker(args):
             post, anom = kits.HG_KIT.proj(H, g)
             o = obs06.observe(H, g, post, rng)
             out.append({"rid": f"shape{base + k}.{vname}", "what": f"shape under {g.name}/{vname}", "gamma": g.name,
-                        "post": post, "postanom": anom, "obs": o["obs"],
+                        "post": post, "postanom": [a for a in anom if not a.startswith("view:")],
+                        "viewanom": [a for a in anom if a.startswith("view:")], "obs": o["obs"],
                         "replay": {"cls": "H", "gamma": g.name, "j": post}})
     return out
 
